@@ -53,13 +53,14 @@ def rule_I_INDEX(ctx, ev, ctors):
              "components keep their order, and the value reaches the Image variant's index field without arithmetic")
     # (a) enum parser: position(== Placeholder) then remove(index) on the same vector, index returned unchanged
     pti = maps.enum_parser_fn(ctx, "parse_terms_with_image")
+    pti_vec = ([q["name"] for q in pti["params"] if q.get("k") == "Binding" and q["name"] != "self"] + [None])[0]      # the vector parameter, by position
     pos = hir.find_calls(pti["body"], "position") + hir.find_calls(pti["body"], "rposition") + hir.find_calls(pti["body"], "find")
     ok = len(pos) == 1 and pos[0].get("def") == "std::iter::Iterator::position"
     recv_ok = False
     clos_ok = False
     if ok:
         r = strip(pos[0]["recv"])
-        recv_ok = r["k"] == "MethodCall" and r["method"] == "iter" and field_path(r["recv"]) == ("terms",)
+        recv_ok = r["k"] == "MethodCall" and r["method"] == "iter" and field_path(r["recv"]) == (pti_vec,)
         c = strip(pos[0]["args"][0])
         if c["k"] == "Closure":
             b = strip(c["body"])
@@ -69,16 +70,31 @@ def rule_I_INDEX(ctx, ev, ctors):
                 clos_ok = any(hir.variant_of(s["path"]) == "Placeholder" for s in sides if s["k"] == "Path")
     ctx.ob("I-INDEX", "parse_terms_with_image: Iterator::position(== Placeholder) over terms.iter()", ok and recv_ok and clos_ok,
            "index must be the FIRST position whose element equals Placeholder (callee %s)" % (pos[0].get("def") if pos else None))
-    m = [n for n in hir.walk(pti["body"]) if n.get("k") == "Match"]
+    # the `Some(index)` alternative, written as a match arm or as `if let Some(index) = ..`
+    some_alts = []
+    for n in hir.walk(pti["body"]):
+        if n.get("k") == "Match" and "Desugar" not in n.get("source", ""):
+            try:
+                some_alts += [(pat, arm["body"]) for v, arm, pat in hir.arms_by_variant(n) if v == "Some"]
+            except hir.Unrecognised:
+                pass
+        elif n.get("k") == "If" and strip(n["cond"]).get("k") == "LetExpr":
+            q = strip(n["cond"])["pat"]
+            try:
+                if hir.pat_variants(q) == {"Some"}:
+                    some_alts.append((q, n["then"]))
+            except hir.Unrecognised:
+                pass
     ok = False
-    if m:
-        for v, arm, pat in hir.arms_by_variant(m[-1]):
-            if v == "Some":
-                b = hir.pat_bindings(pat)
-                rem = hir.find_calls(arm["body"], "remove")
-                tail = hir.last_expr(arm["body"])
-                ok = (len(rem) == 1 and field_path(rem[0]["recv"]) == ("terms",) and field_path(rem[0]["args"][0]) == (b[0],)
-                      and tail["k"] == "Call" and field_path(tail["args"][0]) == (b[0],))
+    if len(some_alts) == 1:
+        pat, body_ = some_alts[0]
+        b = hir.pat_bindings(pat)
+        if not b and pat.get("fields"):
+            b = [fd["pat"].get("name") for fd in pat["fields"]]
+        rem = hir.find_calls(body_, "remove")
+        tail = hir.last_expr(body_)
+        ok = (len(b) == 1 and len(rem) == 1 and field_path(rem[0]["recv"]) == (pti_vec,) and field_path(rem[0]["args"][0]) == (b[0],)
+              and tail["k"] == "Call" and field_path(tail["args"][0]) == (b[0],))
     ctx.ob("I-INDEX", "parse_terms_with_image: remove(index) on the same vector; index returned unchanged", ok, "")
     # (b) parse_compound: *index = i (pure flow from parse_terms_with_image), vec.extend(terms)
     pc = f.mir_fn("parse_compound", module="impl_enum::parser")
@@ -125,10 +141,25 @@ def rule_I_INDEX(ctx, ev, ctors):
         ok = (len(arms) == 2 and len(ps) == 2
               and hir.pat_variants(ps[0]) == {"Placeholder"} and hir.pat_variants(ps[1]) == {"None"}
               and arms[1]["pat"]["k"] == "Wild")
+        # binders by role: (counter, item) of the `for (counter, item) in ..enumerate()` pattern; the target vector is the 2nd parameter
+        loop_b = []
+        for n_ in hir.walk(tti["body"]):
+            if n_.get("k") == "Match" and "ForLoop" in n_.get("source", ""):
+                for n2 in hir.walk(n_["arms"][0]["body"]):
+                    if n2.get("k") == "Match":
+                        for a_ in n2["arms"]:
+                            if hir.pat_variants(a_["pat"]) == {"Some"}:
+                                inner_ = (a_["pat"].get("pats") or [fd["pat"] for fd in a_["pat"].get("fields", [])] or [{}])[0]
+                                if inner_.get("k") == "Tuple":
+                                    loop_b = [q.get("name") for q in inner_["pats"]]
+                        break
+                break
+        tparams = [q["name"] for q in tti["params"] if q.get("k") == "Binding"]
+        ok = ok and len(loop_b) == 2 and len(tparams) == 2
         ins = hir.find_calls(first["body"], "insert")
-        ok = ok and len(ins) == 1 and field_path(ins[0]["args"][0]) == ("i",)
+        ok = ok and len(ins) == 1 and field_path(ins[0]["args"][0]) == (loop_b[0],)
         push = hir.find_calls(arms[1]["body"], "push")
-        ok = ok and len(push) == 1 and field_path(push[0]["recv"]) == ("target",) and field_path(push[0]["args"][0]) == ("term",)
+        ok = ok and len(push) == 1 and field_path(push[0]["recv"]) == (tparams[1],) and field_path(push[0]["args"][0]) == (loop_b[1],)
         # the loop pattern binds (i, term) from enumerate
     ctx.ob("I-INDEX", "to_terms_with_image: index = enumerate counter at the first placeholder; other items pushed in order", bool(ok), "")
     # (d) to_image_*_with_placeholder -> new_image_*(index, vec) with the vec filled by to_terms_with_image
@@ -185,7 +216,8 @@ def rule_N_INTERVAL(ctx, F_):
     for v, arm, pat in hir.arms_by_variant(m):
         if v == "Interval":
             ps = hir.find_calls(arm["body"], "parse")
-            ok = len(ps) == 1 and (ps[0].get("def") or "").endswith("str>::parse") and field_path(ps[0]["recv"]) == ("new_name",) \
+            san_p = [q["name"] for q in san["params"] if q.get("k") == "Binding" and q["name"] != "self"]
+            ok = len(ps) == 1 and (ps[0].get("def") or "").endswith("str>::parse") and len(san_p) == 1 and field_path(ps[0]["recv"]) == (san_p[0],) \
                 and "usize" in (ps[0].get("ty") or "")
             ctx.ob("N-INTERVAL", "set_atom_name Interval = new_name.parse::<usize>()", ok, "%s" % [(p.get("def"), p.get("ty")) for p in ps])
             # the parsed value is stored unchanged
@@ -203,7 +235,8 @@ def rule_N_INTERVAL(ctx, F_):
     ft = F_.term.get("atom.prefix_interval")
     fa = f.hir_fn("fold_atom", module="lexical_fold::impl_enum")
     ps = hir.find_calls(fa["body"], "parse")
-    ok = len(ps) == 1 and (ps[0].get("def") or "").endswith("str>::parse") and field_path(ps[0]["recv"]) == ("name",) and "usize" in (ps[0].get("ty") or "")
+    fa_p = [q["name"] for q in fa["params"] if q.get("k") == "Binding"]          # (folder, prefix, name): the name is the 3rd parameter
+    ok = len(ps) == 1 and (ps[0].get("def") or "").endswith("str>::parse") and len(fa_p) == 3 and field_path(ps[0]["recv"]) == (fa_p[2],) and "usize" in (ps[0].get("ty") or "")
     ctx.ob("N-INTERVAL", "fold_atom interval = name.parse::<usize>()", ok and root_variant(ft) == "Interval", "fold tree %s" % tree_s(ft))
     ctx.ob("N-INTERVAL", "fold_atom placeholder ignores the name", F_.term.get("atom.prefix_placeholder") == ("ctor", "Placeholder", []),
            "fold tree %s" % tree_s(F_.term.get("atom.prefix_placeholder")))
@@ -227,7 +260,9 @@ def rule_N_INTERVAL(ctx, F_):
     okscan = len(scans) == 1 and len(ifs) == 1 and top_index(scans[0]) is not None and top_index(ifs[0]) is not None and top_index(scans[0]) < top_index(ifs[0])
     ctx.ob("N-INTERVAL", "parse_atom consumes the name characters before it returns the placeholder", bool(okscan),
            "the placeholder return must follow the name-scanning loop, else `_x` leaves `x` in the input to be read as another term")
-    ctx.ob("N-INTERVAL", "parse_atom applies the scanned name through set_atom_name", len(sets) == 1 and field_path(sets[0]["args"][0]) == ("name_buffer",), "")
+    # the argument is the String the scanning loop pushes into (by identity, whatever it is called)
+    pushed = {field_path(c["recv"]) for sc_ in scans for c in hir.find_calls(sc_, "push") if field_path(c["recv"])}
+    ctx.ob("N-INTERVAL", "parse_atom applies the scanned name through set_atom_name", len(sets) == 1 and len(pushed) == 1 and field_path(sets[0]["args"][0]) in pushed, "")
 
 
 
@@ -252,20 +287,20 @@ def run(ctx):
     fparams = F_.params["fold_statement"]
     fnames = {}
     for i, n in enumerate(fparams):
-        if n == "subject": fnames["$%d" % i] = 0
-        if n == "predicate": fnames["$%d" % i] = 1
+        if i == 1 and len(fparams) == 4: fnames["$%d" % i] = 0          # fold_statement(folder, subject, copula, predicate): by position
+        if i == 3 and len(fparams) == 4: fnames["$%d" % i] = 1
     for fld, cname in sorted(FIELD_OF.items()):
         want = SPEC[cname]
         pt = P_.term.get(fld)
         ft = F_.term.get(fld)
-        pg = to_operands(pt, {"subject": 0, "*": 1}) if pt else None
+        pg = to_operands(pt, {P_.subject_name: 0, "*": 1}) if pt else None
         fg = to_operands(ft, fnames) if ft else None
         ctx.ob("M-DERIVED-ROUTE", "enum parser %s" % fld, pg == want, "builds %s, expected %s" % (tree_s(pg) if pg else None, tree_s(want)))
         ctx.ob("M-DERIVED-ROUTE", "fold %s" % fld, fg == want, "builds %s, expected %s" % (tree_s(fg) if fg else None, tree_s(want)))
     # subject is parsed before the copula chain, predicate after the keyword skip (source order)
     st = P_.statement_fn
     lets = [s for s in st["body"]["stmts"] if s["k"] == "Let" and s["pat"]["k"] == "Binding"]
-    subj = [s for s in lets if s["pat"]["name"] == "subject"]
+    subj = [s for s in lets if hir.find_calls(s["init"], "parse_term")][:1]          # the first operand parsed (whatever the binding is called)
     ok = len(subj) == 1 and hir.find_calls(subj[0]["init"], "parse_term")
     chain = maps.find_chains(st, "starts_with", 2)
     ok = ok and chain and subj[0]["line"] < chain[0]["line"]
